@@ -65,6 +65,7 @@ class Ctx:
         self.extra_axioms = []  # [(node, rel)] assumed facts (domain of ops)
         self.n_compare = 0
         self.rng = None
+        self.xr_axioms = False
         self.rng_perm = None     # callable(n) -> permutation used by the np.random.shuffle stub
         self.allow_ties = False  # tie runs: an exactly tied order comparison is recorded as '==' and the run goes on
 
@@ -104,6 +105,8 @@ def const(v):
         if math.isinf(f):
             return mk("inf", (), 1 if f > 0 else -1)
         if math.isnan(f):
+            if CTX.xr is not None:
+                return mk("nan", (), None)
             raise Unsupported("nan constant")
         return mk("const", (), Fraction(f))
     raise Unsupported("cannot lift %r to a symbolic constant" % (type(v),))
@@ -128,8 +131,11 @@ def _is_neg_of(a, b):
     return b.op == "mul" and b.args[0].op == "const" and b.args[0].val == -1 and b.args[1] is a
 
 
+SPECIAL = ("inf", "nan")
+
+
 def add(a, b):
-    if a.op == "inf" or b.op == "inf":
+    if a.op in SPECIAL or b.op in SPECIAL:
         return _inf_arith("add", a, b)
     if isc(a, 0):
         return b
@@ -144,7 +150,7 @@ def add(a, b):
 
 
 def mul(a, b):
-    if a.op == "inf" or b.op == "inf":
+    if a.op in SPECIAL or b.op in SPECIAL:
         return _inf_arith("mul", a, b)
     if isc(a, 0) or isc(b, 0):
         return const(0)
@@ -167,6 +173,8 @@ def mul(a, b):
 
 
 def neg(a):
+    if a.op == "nan":
+        return a
     if a.op == "inf":
         return mk("inf", (), -a.val)
     return mul(const(-1), a)
@@ -179,13 +187,15 @@ def sub(a, b):
 
 
 def div(a, b):
-    if a.op == "inf" or b.op == "inf":
+    if a.op in SPECIAL or b.op in SPECIAL:
         return _inf_arith("div", a, b)
     if isc(b, 1):
         return a
     if isc(b) and b.val != 0:
         return mul(const(1 / b.val), a)
     if isc(b, 0):
+        if CTX.xr is not None:
+            return CTX.xr.div_by_zero(a)
         raise Unsupported("division by the constant 0")
     if isc(a, 0):
         return a
@@ -200,6 +210,8 @@ def _inf_arith(op, a, b):
     h = CTX.xr
     if h is not None:
         return h.inf_arith(op, a, b)
+    if a.op == "nan" or b.op == "nan":
+        raise Unsupported("nan outside the extended-real mode")
     if op == "mul":
         o = b if a.op == "inf" else a
         i = a if a.op == "inf" else b
@@ -257,9 +269,9 @@ def linform(n):
 
 
 def fn(name, a):
-    if a.op == "inf":
+    if a.op in SPECIAL:
         if CTX.xr is not None:
-            return CTX.xr.fn_inf(name, a)
+            return CTX.xr.fn_special(name, a)
         raise Unsupported("%s of infinity" % name)
     if isc(a):
         if name in ("exp", "tanh") and a.val == 0:
@@ -326,6 +338,8 @@ def evalf(n, model=None, memo=None):
             v = model[m.val]
         elif op == "inf":
             v = math.inf * m.val
+        elif op == "nan":
+            v = math.nan
         else:
             x = memo[m.args[0].id]
             try:
@@ -512,6 +526,8 @@ class S:
         return S(fn("log", self.n), self.nd)
 
     def sqrt(self):
+        if CTX.xr is not None:
+            return CTX.xr.sqrt(self)
         return S(fn("sqrt", self.n), self.nd)
 
     def tanh(self):
@@ -576,6 +592,8 @@ class S:
             return float(self.n.val)
         if self.n.op == "inf":
             return math.inf * self.n.val
+        if self.n.op == "nan":
+            return math.nan
         raise Unsupported("float() of a symbolic value")
 
     def __int__(self):
@@ -633,6 +651,8 @@ def _sign_rel(v):
 def CTX_compare(op, a, b):
     """Concrete truth value of ``a op b`` under the current model; records the sign of a-b."""
     CTX.n_compare += 1
+    if a.op == "nan" or b.op == "nan":
+        return op == "!="            # IEEE: every ordered comparison with nan is false
     if a.op == "inf" or b.op == "inf":
         va = math.inf * a.val if a.op == "inf" else 0.0
         vb = math.inf * b.val if b.op == "inf" else 0.0
